@@ -920,6 +920,18 @@ __attribute__((weak)) uint32_t time_now(void)
 	return sim_clock;
 }
 
+/* librfn_sim.so is linked with --wrap=usleep: the POSIX main loop (posix/fibre_posix.c) sleeps
+ * on the simulated clock.  A harness may install a hook (it decides jitter and when to stop). */
+int (*sim_usleep_hook)(unsigned int usec);
+
+int __wrap_usleep(unsigned int usec)
+{
+	if (sim_usleep_hook)
+		return sim_usleep_hook(usec);
+	sim_clock += usec;
+	return 0;
+}
+
 struct console;
 __attribute__((weak)) void console_hwinit(struct console *c)
 {
@@ -971,6 +983,7 @@ static void run_begin(uint64_t index)
 	alloc_fail_countdown = 0;
 	alloc_fail_fired = 0;
 	sim_clock = 0;
+	sim_usleep_hook = NULL;
 	sink.short_per_1000 = sink.err_per_1000 = 0;
 	sim_sink_reset();
 	if (simrt_run_begin)
